@@ -28,12 +28,42 @@ def run(ctx):
         for _ in range(per_route):
             webui = rng.choice([["password"], ["U2F"], ["U2F", "TOTP"], ["SymantecVIP", "Okta2FA"], []])
             ops.append("rt %s %s %s" % (r["path"], ",".join(webui) or "-", " ".join(g.shape(rng))))
+    # real TLS handshakes (VerifiedChains as crypto/tls builds them, real peer address 127.0.0.1)
+    tls_ops, tls_model_ops = [], []
+    tls_routes = [r for r in routes if r["masks"] and not r["cond"]]
+    if ctx.quick():
+        tls_routes = [r for r in tls_routes if set(r["masks"]) & {"ipcert", "any", "webuiKmx509"}][:14]
+    for r in tls_routes:
+        for kind in ["km", "ipin", "ipout", "foreign", "none"]:
+            for den in ["0", "1"]:
+                tls_ops.append("tls %s %s %s" % (r["path"], kind, den))
+                tok = "none" if kind == "none" else "%s:2%s" % (kind, ":denied" if den == "1" else "")
+                tls_model_ops.append("rt %s U2F POST none 1 %s none none 1" % (r["path"], tok))
+    n_plain = len(ops)
+    ops = ops + tls_ops
     impl, log, rc = c.run_harness(ctx, "cmd/keymasterd", "C06", ops, timeout=1500)
     if rc != 0 or len(impl) != len(ops):
         ctx.broken.append("harness TestVerifC06 did not complete (exit %d, %d/%d lines)" % (rc, len(impl), len(ops)))
         return c.finish(ctx)
+    tls_impl = impl[n_plain:]
+    ops, impl = ops[:n_plain], impl[:n_plain]
     model = c.run_driver(ctx, "model", ops)
     hist = collections.Counter()
+    tls_model = c.run_driver(ctx, "model", tls_model_ops) if tls_model_ops else []
+    for o, a, b in zip(tls_ops, tls_impl, tls_model):
+        f = a.split()
+        if len(f) != 2 or not f[0].isdigit():
+            ctx.broken.append("real-TLS probe %r answered %r" % (o, a))
+            continue
+        hist["tls:" + b + ":" + ("signed" if f[1] == "signed=1" else ("4xx5xx" if int(f[0]) >= 400 else "2xx3xx"))] += 1
+        if b == "deny" and (f[1] == "signed=1" or int(f[0]) < 400):
+            c.add_violation(ctx, "tls-admitted:" + " ".join(o.split()[1:]),
+                            "over a real TLS handshake the route answered %r to a client certificate the proved gate refuses" % a,
+                            {"op": o, "impl": a, "model": b})
+    # completeness sample: the legitimate refresh from inside the netblock works
+    for o, a in zip(tls_ops, tls_impl):
+        if o == "tls /v1/refreshRoleRequestingCert ipin 0" and a != "200 signed=1":
+            ctx.broken.append("legitimate refresh from inside the netblock over real TLS answered %r" % a)
     dis_ca = []
     nontrivial = set()
     for o, a, b in zip(ops, impl, model):
@@ -70,7 +100,7 @@ def run(ctx):
     ctx.coverage.update({
         "evaluations": len(ops), "distinct_nontrivial": len(nontrivial),
         "rule": "request shapes (method x origin x host x TLS chain kind/shape/deny x cookie claims x basic-auth x limiter) from a mostly-valid generator, against the real checkAuth for 9 masks and against every handler of the regenerated route table; non-trivial = distinct ops that were admitted (checkAuth ok) or produced a protected effect",
-        "routes_probed": len(routes), "outcome_histogram": dict(hist),
+        "routes_probed": len(routes), "real_tls_handshakes": len(tls_ops), "outcome_histogram": dict(hist),
         "samples": [{"op": o, "impl": a, "model": b} for o, a, b in list(zip(ops, impl, model))[:4] + list(zip(ops, impl, model))[-3:]],
     })
     return c.finish(ctx)
